@@ -26,6 +26,7 @@ event = st.one_of(
     st.tuples(st.just("exit"), st.integers(0, 3), st.sampled_from([0, 1 << 8, 9])),
     st.tuples(st.just("sig"), st.lists(st.sampled_from(["SIGTTIN", "SIGTTOU"]), min_size=1, max_size=2)),
     st.tuples(st.just("hup"), st.integers(1, 3)),
+    st.tuples(st.just("hup"), st.integers(1, 3), st.sampled_from([1, 2, 5, 30, 60])),      # reload with another timeout
     st.tuples(st.just("tick")),
     st.tuples(st.just("tick")),
 )
@@ -93,9 +94,12 @@ def run_case(case):
         return c11_real.run_case(case)
     if case.get("engine") == "Tidle":
         return run_idle_period(case)
-    T = case["timeout"]
+    T0 = case["timeout"]
+    # the timeout may change at a reload: deadlines for hung workers use the largest value ever configured (lenient),
+    # the "healthy workers are never killed" clause holds for every value
+    T = max([T0] + [e[2] for e in case["events"] if e[0] == "hup" and len(e) > 2])
     k = ksim.Kernel(case["sched"], case["events"], quiesce_steps=T + 8)
-    out = ksim.run_arbiter(k, {"workers": case["workers"], "timeout": T, "graceful_timeout": 3})
+    out = ksim.run_arbiter(k, {"workers": case["workers"], "timeout": T0, "graceful_timeout": 3})
     arb = out["arbiter"]
     vio = []
 
@@ -113,7 +117,9 @@ def run_case(case):
     # healthy workers are never murdered
     for e in k.kill_log:
         if e["ctx"] == "murder" and e["mode"] == "healthy" and e["sig"] in (int(signal.SIGABRT), int(signal.SIGKILL)):
-            V("healthy-never-killed", "healthy-worker-killed-by-timeout-scan",
+            old_gen = (e.get("last_reload") is not None and e.get("born") is not None and e["born"] <= e["last_reload"]
+                       and e.get("master_timeout") and e["wtimeout"] * 2 > e["master_timeout"])
+            V("healthy-never-killed", "healthy-worker-killed-by-timeout-scan" + (":old-generation-after-timeout-lowered" if old_gen else ""),
               {"kill": e, "heartbeat_age": e["hb_age"], "worker_wait_bound": e["wtimeout"], "timeout": T},
               "no ABRT/KILL for a worker whose heartbeat age stays within its bound")
             break
@@ -142,7 +148,7 @@ def run_case(case):
                         V("escalate-to-kill", "worker-ignoring-abrt-never-killed", {"pid": pid, "signals": sigs, "end": k.clock},
                           "SIGKILL on the scan after SIGABRT")
                         break
-                elif kill[0] > abrt[0] + 2 + 1e-6:
+                elif kill[0] > abrt[0] + (2 if T == T0 and not any(e[0] == "hup" and len(e) > 2 for e in case["events"]) else T + 2) + 1e-6:
                     V("escalate-to-kill", "kill-escalation-late", {"abrt": abrt[0], "kill": kill[0]}, "<= 2 s after SIGABRT")
                     break
             if p.state != "gone":
